@@ -62,6 +62,15 @@ func (w *World) oracleC12Invocation(r *Request, inv *Invocation) {
 			w.fail("C12.order", "add-order", "%s: ADD #%d: %s; expected list %v", who, r.addIdx, msg, c.Pod.Expect)
 			return
 		}
+		if r.addIdx > 0 {
+			how := "eth-i"
+			if c.Pod.Expect[r.addIdx].Named {
+				how = "named-by-entry"
+			}
+			w.S.Stat("probe.ifname." + c.Pod.AnnForm + "." + how)
+		} else if c.Pod.KubeIf != "eth0" {
+			w.S.Stat("probe.ifname.first-on-kubelets-non-eth0-name")
+		}
 		if inv.Failed {
 			r.failedAt = r.addIdx
 			r.rollbackNext = r.addIdx
@@ -186,6 +195,20 @@ func (w *World) oracleC12RequestEnd(r *Request, killed bool) {
 				c.Remaining = append(c.Remaining, i)
 			}
 			w.S.Stat("probe.add-complete")
+			switch {
+			case c.Pod.AnnForm != "none" && c.Pod.WantENI && w.cfg.ENINet != "" && len(w.cfg.DefaultNets) > 0:
+				w.S.Stat("probe.selection.annotation-with-eni-and-defaults-present")
+			case c.Pod.AnnForm != "none":
+				w.S.Stat("probe.selection.annotation")
+			case c.Pod.WantENI && w.cfg.ENINet != "":
+				w.S.Stat("probe.selection.eni-over-defaults")
+			case c.Pod.WantENI:
+				w.S.Stat("probe.selection.defaults-for-eni-pod-without-eni-network")
+			case w.cfg.ENINet != "":
+				w.S.Stat("probe.selection.defaults-for-ordinary-pod-with-eni-network-configured")
+			default:
+				w.S.Stat("probe.selection.defaults")
+			}
 		default:
 			w.fail("C12.order", "add-incomplete", "%s: only %d of %d expected plugins were invoked and none failed (reply %d %s)", who, r.addIdx, len(c.Pod.Expect), r.Code, strings.TrimSpace(string(r.Resp)))
 		}
@@ -208,6 +231,9 @@ func (w *World) oracleC12RequestEnd(r *Request, killed bool) {
 		}
 		if len(r.delExpect) == 0 {
 			w.S.Stat("probe.repeated-del-noop")
+			if c.DelOKProc != 0 && c.DelOKProc != w.proc {
+				w.S.Stat("probe.repeated-del-noop-after-restart")
+			}
 		}
 		if len(r.delFailed) > 0 {
 			w.S.Stat("probe.del-partial-failure")
